@@ -2,9 +2,10 @@ package sqlittle
 
 import (
 	"fmt"
-	"strings"
 
 	sdb "github.com/alicebob/sqlittle/db"
+
+	"github.com/alicebob/sqlittle/sql"
 )
 
 type columnIndex struct {
@@ -38,7 +39,7 @@ func toColumnIndexRowid(s *sdb.Schema, columns []string) ([]columnIndex, error) 
 	for _, c := range columns {
 		n := s.Column(c)
 		if n < 0 {
-			cup := strings.ToUpper(c)
+			cup := sql.ToUpper(c)
 			if cup == "ROWID" || cup == "OID" || cup == "_ROWID_" {
 				res = append(res, columnIndex{nil, n, true})
 				continue
@@ -81,11 +82,11 @@ func columnStoreOrder(schema *sdb.Schema) []int {
 	// all PK columns come first, then all other columns, in order
 	var cols = make([]string, 0, len(schema.Columns))
 	for _, c := range schema.PK {
-		cols = append(cols, strings.ToLower(c.Column))
+		cols = append(cols, sql.ToLower(c.Column))
 	}
 loop:
 	for _, c := range schema.Columns {
-		n := strings.ToLower(c.Column)
+		n := sql.ToLower(c.Column)
 		for _, oc := range cols {
 			if oc == n {
 				continue loop
@@ -97,7 +98,7 @@ loop:
 	res := make([]int, len(cols))
 loop2:
 	for i, c := range schema.Columns {
-		n := strings.ToLower(c.Column)
+		n := sql.ToLower(c.Column)
 		for j, oc := range cols {
 			if oc == n {
 				res[i] = j
@@ -119,7 +120,7 @@ func pkColumns(schema *sdb.Schema, ind *sdb.SchemaIndex) []int {
 		if c == "" {
 			return "binary"
 		}
-		return strings.ToLower(c)
+		return sql.ToLower(c)
 	}
 	var res []int
 	for _, c := range schema.PK {
@@ -127,7 +128,7 @@ func pkColumns(schema *sdb.Schema, ind *sdb.SchemaIndex) []int {
 		// has that column with the same collation
 		in := -1
 		for i, ic := range ind.Columns {
-			if strings.EqualFold(ic.Column, c.Column) && collate(ic.Collate) == collate(c.Collate) {
+			if sql.EqualFold(ic.Column, c.Column) && collate(ic.Collate) == collate(c.Collate) {
 				in = i
 				break
 			}
